@@ -10,6 +10,12 @@ from .c06 import header_pairs
 from ..refmodels import mixins as MX, transcoding as T
 
 
+def fits(rule, field, val):
+    segs = dict((s[1], s[2]) for s in T.parse_uri(rule["uri"])[0] if s[0] == "var")[field]
+    parts = val.split("/")
+    return len(parts) == len(segs) and all(s == "*" or s == p for s, p in zip(segs, parts))
+
+
 def cls_of(full):
     return symbol_database.Default().GetSymbol(full)
 
@@ -22,8 +28,11 @@ def exercise(ctx):
     transports = ctx.options["transport"].split("+")
     yaml_rules = {}
     for r in ((ctx.options.get("service_yaml") or {}).get("http") or {}).get("rules", []):
-        verb = next(v for v in ("get", "post", "put", "patch", "delete") if v in r)
-        yaml_rules[r["selector"]] = {"verb": verb, "uri": r[verb], "body": r.get("body")}
+        bs = []
+        for b in [r] + list(r.get("additional_bindings", [])):
+            verb = next(v for v in ("get", "post", "put", "patch", "delete") if v in b)
+            bs.append({"verb": verb, "uri": b[verb], "body": b.get("body")})
+        yaml_rules[r["selector"]] = bs
     own_iam = MX.own_iam_rpcs(ctx.api)
     kinds = (["sync", "async"] if "grpc" in transports else []) + (["rest"] if "rest" in transports else [])
     for f, svc in ctx.services():
@@ -51,11 +60,16 @@ def exercise(ctx):
                     continue
                 if not has:
                     continue
-                rule = yaml_rules.get(f"{api}.{rpc}")
+                rules = yaml_rules.get(f"{api}.{rpc}") or []
                 req_cls = cls_of(req_t)
                 resp_cls = cls_of(resp_t) if resp_t else None
 
-                def one(val, client=client, kind=kind, rpc=rpc, api=api, field=field, req_cls=req_cls, resp_cls=resp_cls, rule=rule, name=name):
+                def one(bv, client=client, kind=kind, rpc=rpc, api=api, field=field, req_cls=req_cls, resp_cls=resp_cls, rules=rules, name=name):
+                    bi, val = bv
+                    # the binding that has to be used: the first one (primary first) whose path pattern the name fits
+                    rule = next((r for r in rules if fits(r, field, val)), rules[0] if rules else None)
+                    if rules:
+                        ctx.cls("mixin-binding:" + ("primary" if rule is rules[0] else "additional"))
                     req = req_cls(**{field: val})
                     reply = resp_cls() if resp_cls else None
                     if reply is not None and hasattr(reply, "name"):
@@ -115,8 +129,9 @@ def exercise(ctx):
                     if resp_cls is not None and not rpc.startswith("List"):
                         if type(got).__name__ != resp_cls.__name__ or resp_cls.FromString(got.SerializeToString()) != reply:
                             raise Fail("mixin-response", f"{what}: returned {type(got).__name__} {str(got)[:100]!r}, server sent {resp_cls.__name__} {str(reply)[:100]!r}")
-                segs = dict((s[1], s[2]) for s in T.parse_uri(rule["uri"])[0] if s[0] == "var")[field] if rule else ["projects", "*", "things", "*"]
-                forall(ctx, var_value(segs), one, int(ctx.inner.get("n", 3)), label=name, shrink=False)
+                seglists = [dict((s[1], s[2]) for s in T.parse_uri(r["uri"])[0] if s[0] == "var")[field] for r in rules] or [["projects", "*", "things", "*"]]
+                strat = st.integers(0, len(seglists) - 1).flatmap(lambda i: st.tuples(st.just(i), var_value(seglists[i])))
+                forall(ctx, strat, one, int(ctx.inner.get("n", 3)) + (2 if len(seglists) > 1 else 0), label=name, shrink=False)
                 ctx.count("mixin_methods_exercised")
         # the API's own IAM-named RPCs still reach their own service
         for m in svc["methods"]:
